@@ -122,6 +122,7 @@ Section G.
     destruct n as [ | |c|bs|bs|cs|l0|a b| | |sol ml|inv ui|id c nm|g ic|b|alts icase|ng bw sg' eg' c|body mn mx gr egs ege|body mn mx gr];
       cbn [ir_results] in Hr; try (eapply okres_results_of; exact Hr); try (eapply okres_cond; exact Hr); try discriminate.
     - inversion Hr; subst. repeat constructor; simpl; auto.
+    - inversion Hr; subst. repeat constructor; simpl; auto.
     - destruct (leaf_code (negb fwd) (NByteSet bs)); [eapply okres_results_of; exact Hr|discriminate].
     - destruct (leaf_code (negb fwd) (NCharSet cs)); [eapply okres_results_of; exact Hr|discriminate].
     - simpl in Hc. eapply (cat_gframe f IHf fwd G l0 [(p, G)]); eauto; try (repeat constructor; apply gframe_refl).
